@@ -29,17 +29,34 @@ type LockClass struct {
 	ConfFuncs map[string]bool
 	Entry     map[string]bool // extra entry points (goroutine bodies, callbacks) analysed with the lock not held
 	HeldFuncs map[string]bool // methods documented to be called with the lock held
+	// Serial: initonly fields holding a stateful object shared by all goroutines (the tty's write side, the charset
+	// encoder): a method call through the field (all methods, or the listed ones) and every call that is handed the
+	// field's value must be made with the lock held.  "F" = all methods, "F:M1,M2" = those methods.
+	Serial map[string]map[string]bool
 	BalanceOnly bool          // only lock/unlock/exit obligations (no field-access obligations)
 	Pkg       string
 }
 
 func parseLockClass(lines []string, pkg string, typ string) *LockClass {
 	lc := &LockClass{Type: typ, Pkg: pkg, Guarded: map[string]bool{}, InitOnly: map[string]bool{}, Confined: map[string]bool{}, Channel: map[string]bool{},
-		InitFuncs: map[string]bool{}, ConfFuncs: map[string]bool{}, Entry: map[string]bool{}, HeldFuncs: map[string]bool{}}
+		InitFuncs: map[string]bool{}, ConfFuncs: map[string]bool{}, Entry: map[string]bool{}, HeldFuncs: map[string]bool{},
+		Serial: map[string]map[string]bool{}}
 	for _, ln := range lines {
 		w, rest := firstWord(ln)
 		var m map[string]bool
 		switch w {
+		case "serial":
+			for _, f := range strings.Fields(rest) {
+				name, ms, has := strings.Cut(f, ":")
+				set := map[string]bool{}
+				if has {
+					for _, mn := range strings.Split(ms, ",") {
+						set[mn] = true
+					}
+				}
+				lc.Serial[name] = set
+			}
+			continue
 		case "guarded":
 			m = lc.Guarded
 		case "initonly":
@@ -247,6 +264,32 @@ func (d *discAnalysis) fieldOf(in ssa.Instruction) (string, ssa.Value, bool) {
 	return "", nil, false
 }
 
+// serialField: v is (an interface conversion of) the value loaded from a field of the screen listed under `serial`.
+func (d *discAnalysis) serialField(v ssa.Value) (string, bool) {
+	for {
+		switch x := v.(type) {
+		case *ssa.ChangeInterface:
+			v = x.X
+			continue
+		case *ssa.MakeInterface:
+			v = x.X
+			continue
+		case *ssa.UnOp:
+			if x.Op != token.MUL {
+				return "", false
+			}
+			if fa, ok := x.X.(*ssa.FieldAddr); ok {
+				if fld, _, ok := d.fieldOf(fa); ok {
+					if _, is := d.lc.Serial[fld]; is {
+						return fld, true
+					}
+				}
+			}
+		}
+		return "", false
+	}
+}
+
 func fnShort(fn *ssa.Function) string {
 	if fn.Parent() != nil {
 		return fnShort(fn.Parent()) + "$" + strings.TrimPrefix(fn.Name(), fn.Parent().Name()+"$")
@@ -420,6 +463,24 @@ func (d *discAnalysis) analyse(fn *ssa.Function, in heldSet) heldSet {
 				callee := cc.StaticCallee()
 				if b, isB := cc.Value.(*ssa.Builtin); isB && b.Name() == "close" {
 					d.chanSite(d.closeSites, fmt.Sprintf("%s.%s/close[%s]", d.lc.Type, name, chanName(cc.Args[0])), fn, !cur.mayNotHeld(), x.Pos(), chanName(cc.Args[0]))
+				}
+				if len(d.lc.Serial) > 0 && !d.lc.BalanceOnly {
+					if cc.IsInvoke() {
+						if fld, ok := d.serialField(cc.Value); ok {
+							if ms := d.lc.Serial[fld]; len(ms) == 0 || ms[cc.Method.Name()] {
+								okh := !cur.mayNotHeld() || isInit
+								d.site(fmt.Sprintf("%s.%s/serial[%s.%s]#%s", d.lc.Type, name, fld, cc.Method.Name(), ord("call", ins)), okh,
+									fmt.Sprintf("the object behind %s.%s is shared by all goroutines and not safe for concurrent %s: %s calls it%s", d.lc.Type, fld, cc.Method.Name(), name, map[bool]string{true: " with the lock held", false: " while the lock may not be held"}[okh]), x.Pos())
+							}
+						}
+					}
+					for _, a := range cc.Args {
+						if fld, ok := d.serialField(a); ok {
+							okh := !cur.mayNotHeld() || isInit
+							d.site(fmt.Sprintf("%s.%s/serial[%s:passed]#%s", d.lc.Type, name, fld, ord("call", ins)), okh,
+								fmt.Sprintf("the object behind %s.%s is shared by all goroutines; %s hands it to a call%s", d.lc.Type, fld, name, map[bool]string{true: " with the lock held", false: " while the lock may not be held"}[okh]), x.Pos())
+						}
+					}
 				}
 				if d.waitSites != nil && callee != nil && callee.String() == "(*sync.WaitGroup).Wait" {
 					k := fmt.Sprintf("%s.%s/wait-not-holding-lock#%s", d.lc.Type, name, ord("call", ins))
